@@ -116,6 +116,7 @@ func (e *Engine) loopEnter(st *State, li *loopInfo, b *ssa.BasicBlock, prev *ssa
 			c2 := &LoopCtx{Spec: spec, Ord: li.Ord, Info: li, EntryHeap: snapshot(s.Heap), EntryAlloc: s.Alloc}
 			e.havocForLoop(s, W, c2, li)
 			d.Cells, d.Classes, d.FreshClasses, d.Iters, d.Ghosts = map[int]bool{}, map[string]bool{}, map[string]bool{}, map[int]bool{}, map[string]bool{}
+			e.applyRecords(s, c2)
 			e.assumeInvariants(s, li, c2, true)
 			s.top().Active[b] = c2
 			e.runInstrs(s, b, 0, prev, func(*State, Val) {})
@@ -139,9 +140,11 @@ func (e *Engine) loopEnter(st *State, li *loopInfo, b *ssa.BasicBlock, prev *ssa
 	// 2. invariant holds on entry
 	ctx.EntryHeap = snapshot(st.Heap)
 	ctx.EntryAlloc = st.Alloc
+	e.applyRecords(st, ctx)
 	e.checkInvariants(st, li, ctx, "inv.init", b)
 	// 3. havoc and assume
 	e.havocForLoop(st, W, ctx, li)
+	e.applyRecords(st, ctx)
 	e.assumeInvariants(st, li, ctx, false)
 	wall := map[string]bool{}
 	for k := range W.Classes {
@@ -153,6 +156,20 @@ func (e *Engine) loopEnter(st *State, li *loopInfo, b *ssa.BasicBlock, prev *ssa
 	ctx.Written = sortedKeys(wall)
 	fr.Active[b] = ctx
 	return false
+}
+
+// applyRecords stores the current value of every recorded expression at index $i of its ghost array.
+func (e *Engine) applyRecords(st *State, ctx *LoopCtx) {
+	if ctx.Spec == nil || len(ctx.Spec.Records) == 0 {
+		return
+	}
+	sc := e.loopSpecCtx(st, ctx)
+	iv, _ := sc.ident("$i")
+	for _, r := range ctx.Spec.Records {
+		v := e.evalClauseVal(sc, r.E)
+		cur := e.ghostArr(st, "rec:"+r.Name, SArrI)
+		e.setGhost(st, "rec:"+r.Name, e.tb.Store(cur, iv.T[0], v))
+	}
 }
 
 // havocForLoop forgets everything the loop body may write.
@@ -339,6 +356,17 @@ func (e *Engine) loopSpecCtx(st *State, ctx *LoopCtx) *specCtx {
 			env[names[i]] = specBind{fr.Params[i], typs[i]}
 		}
 	}
+	if len(st.Frames) > 1 && e.isInlinedLoopOverride(fr, ctx) {
+		// invariants the function under verification supplies for a loop of an inlined callee may also name its own parameters
+		// (entry values), as far as the callee's parameter names do not shadow them
+		top := st.Frames[0]
+		tn, tt := sigParams(top.Fn.Signature, nil)
+		for i := range tn {
+			if _, shadowed := env[tn[i]]; !shadowed && i < len(top.Params) {
+				env[tn[i]] = specBind{top.Params[i], tt[i]}
+			}
+		}
+	}
 	pkg := fr.Fn.Pkg
 	var tp *types.Package
 	if fr.Contract != nil {
@@ -515,6 +543,7 @@ func (e *Engine) loopBackEdge(st *State, li *loopInfo, ctx *LoopCtx, b *ssa.Basi
 	if st.Disc != nil && st.Disc.Loop == li && st.Disc.Depth == len(st.Frames) {
 		return true
 	}
+	e.applyRecords(st, ctx)
 	e.checkInvariants(st, li, ctx, "inv.preserve", b)
 	// loop frame
 	if ctx.Spec != nil && ctx.Spec.HasMod && !ctx.Spec.ModAny {
